@@ -33,3 +33,9 @@ import pygal_on_ready  # noqa: E402
 
 # taskiq/scheduler/scheduler.py: TaskiqScheduler.on_ready (C16), monadic backend over PyStm.v / PyPreludeSched.v
 SPECS["on_ready"] = pygal_on_ready.SPEC
+
+import pygal_load_gate  # noqa: E402
+
+# taskiq/serialization.py: the load side - exception_to_python and what it calls (C20), monadic backend over PyStm.v /
+# PyPreludeLoadGate.v; the generated exception_to_python_py is a structural Fixpoint on the payload tree
+SPECS["load_gate"] = pygal_load_gate.SPEC
